@@ -45,6 +45,9 @@ def gen_params(rng, idx, tier="quick", force=None):
         "second_member": rng.random() < 0.5,
         "fault_p": rng.choice([0.0, 0.0, 0.15]),
         "blocked_getmany": rng.random() < 0.5,      # a getmany()/send() call is in progress when stop() is issued
+        # group-less consumer: static assign() | assign() replaced while running | subscribe(topic) with partitions
+        # added while running | subscribe(pattern) with a matching topic created while running
+        "simple_mode": rng.choice(["assign", "assign_twice", "subscribe_growth", "pattern"]),
         "stop_at_event": None,
         "unreachable_from_event": None,             # when the cluster state change happens (event index); None = with stop
     }
@@ -108,6 +111,10 @@ def run_history(P):
                     fetch_max_wait_ms=200)
                 if wl == "group_consumer":
                     client.subscribe([TOPIC])
+                elif P.get("simple_mode") == "subscribe_growth":
+                    client.subscribe([TOPIC])
+                elif P.get("simple_mode") == "pattern":
+                    client.subscribe(pattern="^t.*")
                 else:
                     client.assign([TopicPartition(TOPIC, p) for p in range(P["n_parts"])])
             try:
@@ -157,6 +164,27 @@ def run_history(P):
                     pl.append_raw(rr.encode_batch_v2([(0, 1_650_000_000_000, None, b"uid:p%do%d|" % (p, pl.leo), [])],
                                                      base_offset=pl.leo), loop.time())
             bg = [asyncio.ensure_future(poller()), asyncio.ensure_future(feeder())]
+            if wl == "simple_consumer" and P.get("simple_mode", "assign") != "assign":
+                async def reshaper():
+                    mode = P["simple_mode"]
+                    for step in range(3):
+                        await asyncio.sleep(rng.uniform(0.05, P["horizon"] / 3))
+                        if stopping["flag"]:
+                            return
+                        try:
+                            if mode == "assign_twice":
+                                keep = [TopicPartition(TOPIC, p) for p in range(P["n_parts"]) if rng.random() < 0.6] \
+                                    or [TopicPartition(TOPIC, 0)]
+                                with owned("client"):
+                                    client.assign(keep)
+                            elif mode == "subscribe_growth":
+                                cl.add_partitions(TOPIC, len(cl.topics[TOPIC]) + 1)
+                            else:
+                                cl.create_topic(f"t{step}x", rng.choice([1, 2]))
+                            log("reshape", mode=mode, step=step)
+                        except Exception as e:  # noqa: BLE001
+                            log("reshape_error", exc=type(e).__name__)
+                bg.append(asyncio.ensure_future(reshaper()))
             if wl == "group_consumer" and P["second_member"]:
                 async def other_member():
                     OWNER.set("other")
